@@ -20,7 +20,7 @@ RULE = ('(a) EXHAUSTIVE small universe at function level: two identifiers per tr
         'and no NEWSA when there is no common suite, algorithms in NEWSA == negotiated; (d) TAMPERED RESPONSES from an independent responder with valid AUTH: '
         'extra / foreign / missing / duplicated transform, other key length, wrong protocol, for the IKE and the CHILD proposal; INVALID_KE_PAYLOAD '
         'suggesting a never-offered group or carrying 0/1/3 octets. distinct = case signatures.')
-ASSUMPTIONS = ['where a response omits a transform type the offer contained, either outcome is accepted (the property is one-directional for the initiator)']
+ASSUMPTIONS = ['an initiator may install only a response that holds exactly one transform of every type it offered, each taken from its offer; a response with two transforms of one type may be refused or accepted']
 SHARDS = {'quick': 8, 'thorough': 16}
 TIMEOUT = {'quick': 600, 'thorough': 3400}
 T = M.Transform
@@ -147,6 +147,9 @@ def gen_conf(rng, compatible):
     ike_b = {'encr': pick(['aes128', 'aes256'], 2), 'integ': pick(['sha1', 'sha256', 'sha512']), 'prf': pick(['sha1', 'sha256', 'sha512']), 'dh': pick(['14', '19', '20', '21'])}
     ch_a = {'encr': pick(['aes128', 'aes256'], 2), 'integ': pick(['sha1', 'sha256', 'sha512']), 'dh': pick(['14', '19', '20'], 2) if rng.random() < 0.5 else []}
     ch_b = {'encr': pick(['aes128', 'aes256'], 2), 'integ': pick(['sha1', 'sha256', 'sha512']), 'dh': pick(['14', '19', '20'], 2) if rng.random() < 0.5 else []}
+    if rng.random() < 0.25:
+        # one side insists on PFS, the other has no DH group at all
+        ch_a['dh'], ch_b['dh'] = (pick(['14', '19'], 2), []) if rng.random() < 0.5 else ([], pick(['14', '19'], 2))
     if compatible:
         for k in ike_a:
             if not set(ike_a[k]) & set(ike_b[k]):
@@ -158,7 +161,9 @@ def end_to_end(ck, rng, i):
     kw = gen_conf(rng, compatible=i % 4 != 0)
     sim, a, b = S.make_pair(ck.seed * 7 + i, **kw)
     sim.case = {'family': 'e2e', 'conf': kw}
-    sh = SH.Shadow(S.W.dh_log, None)
+    # the algorithms and key lengths each kernel SA is installed with must be the negotiated ones (KeyMonitor), whatever the IKE_SA uses
+    km = SH.KeyMonitor(ck, prefix='e2e:')
+    sh = km.attach(sim, S.W.dh_log)
     proto = 3 if kw['ipsec_proto'] == 'esp' else 2
     my_ike = {'proto': 1, 'transforms': ike_list(kw['ike_b'])}
     offer_ike = {'proto': 1, 'transforms': ike_list(kw['ike_a'])}
@@ -206,7 +211,9 @@ def end_to_end(ck, rng, i):
     my_child = {'proto': proto, 'transforms': child_list(kw['child_b'], proto, False)}
     offer_child = {'proto': proto, 'transforms': child_list(kw['child_a'], proto, False)}
     want_child = negotiate.select(my_child, offer_child)
+    check_child_on_wire.auth_offer = offer_child
     check_child_on_wire(ck, sim, sh, a, b, want_child, 'ike_auth', 1)
+    check_child_on_wire.auth_offer = None
     if not (c02.established(a) and c02.established(b)):
         return
     # one CREATE_CHILD_SA from each side (with DH transforms when configured)
@@ -226,6 +233,7 @@ def end_to_end(ck, rng, i):
 
 def check_child_on_wire(ck, sim, sh, ini, res, want, kind, mid, my_c=None, off_c=None):
     """Look at the last answered exchange of that kind the shadow opened."""
+    n_ini = c02.newsa_count(ini)
     cands = [r for (k, r) in sh.exch.items() if r.get('resp_inner') is not None and r['exch'] == (35 if kind == 'ike_auth' else 36) and not r.get('_seen')]
     for r in cands:
         r['_seen'] = True
@@ -235,6 +243,15 @@ def check_child_on_wire(ck, sim, sh, ini, res, want, kind, mid, my_c=None, off_c
         ck.count(f'e2e.child_responses.{kind}')
         if sa is not None:
             got = [(t['type'], t['id'], t['keylen']) for t in sa['proposals'][0]['transforms']]
+            # initiator side: it may install only a response that is ONE transform of EVERY type it offered, all from its offer
+            offer = off_c if off_c is not None else getattr(check_child_on_wire, 'auth_offer', None)
+            if offer is not None:
+                resp = {'proto': sa['proposals'][0]['proto'], 'transforms': got}
+                installed = any(r_['msg'] and r_['msg']['name'] == 'NEWSA' and r_['msg']['sa']['id']['spi'] == sa['proposals'][0]['spi'] for r_ in ini.kernel.requests)
+                ck.count('e2e.initiator_acceptance_judged')
+                if installed and not negotiate.complete_single_choice(resp, offer):
+                    ck.violation(f"initiator-installed-a-response-that-is-not-a-complete-choice-from-its-offer:{'missing-type' if negotiate.drawn_from_offer(resp, offer) else 'foreign-transform'}:{kind}",
+                                 {'response': got, 'offer': offer['transforms']}, sim.case)
             if want is None:
                 ck.violation(f'responder-chose-a-child-suite-although-none-is-common:{kind}', {'got': got}, sim.case)
             elif sorted(got, key=str) != sorted(want.values(), key=str):
@@ -276,7 +293,7 @@ def tampered(ck, rng, vi):
         ('foreign-prf-sha512', honest[:2] + [{'type': 2, 'id': 7, 'keylen': None}] + honest[3:], 1, False),
         ('extra-foreign-transform', honest + [{'type': 1, 'id': 3, 'keylen': None}], 1, False),
         ('two-encr-both-offered', [honest[0], {'type': 1, 'id': 12, 'keylen': 128}] + honest[1:], 1, None),
-        ('missing-integ', [honest[0]] + honest[2:], 1, None),
+        ('missing-integ', [honest[0]] + honest[2:], 1, False), ('missing-dh', honest[:3], 1, False), ('missing-prf', honest[:2] + honest[3:], 1, False),
         ('wrong-protocol-esp', honest, 3, False),
     ]
     child_honest = [{'type': 1, 'id': 12, 'keylen': 256}, {'type': 3, 'id': 12, 'keylen': None}, {'type': 5, 'id': 0, 'keylen': None}]
@@ -288,6 +305,7 @@ def tampered(ck, rng, vi):
         ('child-extra-dh-never-offered', child_honest + [{'type': 4, 'id': 19, 'keylen': None}], None, False),
         ('child-wrong-protocol-ah', child_honest[1:], 2, False),
         ('child-two-integ', child_honest[:2] + [{'type': 3, 'id': 2, 'keylen': None}, child_honest[2]], None, None),
+        ('child-missing-esn', child_honest[:2], None, False), ('child-missing-integ', [child_honest[0], child_honest[2]], None, False), ('child-missing-encr', child_honest[1:], None, False),
     ]
     invalid_ke = [('invalid-ke-offered-group-14', struct.pack('>H', 14), True), ('invalid-ke-never-offered-group-20', struct.pack('>H', 20), False),
                   ('invalid-ke-never-offered-group-2', struct.pack('>H', 2), False), ('invalid-ke-empty', b'', False), ('invalid-ke-1-octet', b'\x13', False),
@@ -365,7 +383,7 @@ def run(ck):
         if ck.mine(i):
             end_to_end(ck, ck.rng('e2e', i), i)
     for rep in range(1 if not ck.thorough() else 10):
-        for vi in range(26):
+        for vi in range(34):
             if ck.mine(vi + rep):
                 tampered(ck, ck.rng('tamper', vi, rep), vi)
 
@@ -382,5 +400,6 @@ def verdict(ck):
     ck.floor('end-to-end CHILD selections agreeing', c['e2e.child_selection_agrees'], 150)
     ck.floor('INVALID_KE_PAYLOAD replies seen', c['e2e.invalid_ke_seen'] + c['e2e.child_invalid_ke'], 20)
     ck.floor('NO_PROPOSAL_CHOSEN outcomes seen', c['e2e.no_proposal_chosen_seen'] + c['e2e.child_no_proposal_chosen'], 10)
-    ck.floor('tampered-response variants', len(ck.sets['tamper.labels']) + c['tamper.invalid_ke'], 24)
+    ck.floor('tampered-response variants', len(ck.sets['tamper.labels']) + c['tamper.invalid_ke'], 28)
+    ck.floor('initiator acceptances judged end to end', c['e2e.initiator_acceptance_judged'], 200)
     return None
